@@ -70,42 +70,42 @@ func runTM(t *testing.T, prop string, quickCases, thoroughCases, ops int, tw twe
 }
 
 func TestC20(t *testing.T) {
-	runTM(t, "C20", 14, 60, 110, func(pr *Profile) {
+	runTM(t, "C20", 36, 60, 110, func(pr *Profile) {
 		pr.Dup, pr.Conflict, pr.MisbFork, pr.MisbTime, pr.JumpPrune = 10, 9, 4, 4, 8
 		pr.Mutant, pr.Power, pr.GateRecv, pr.GateSend, pr.GateV2 = 3, 3, 0, 0, 0
 	}, map[string]int64{"client_messages": 350, "cons_states_compared": 15000, "duplicates_accepted": 20, "conflicts_accepted": 20, "conflicts_froze": 20, "removals_seen": 50, "misbehaviour_accepted_conflicting": 12, "freezes": 40, "recoveries": 30, "upgrades": 3})
 }
 
 func TestC21(t *testing.T) {
-	runTM(t, "C21", 14, 60, 110, func(pr *Profile) {
+	runTM(t, "C21", 36, 60, 110, func(pr *Profile) {
 		pr.JumpExpire, pr.GateInit, pr.GateHandshake, pr.GateV2, pr.GateRecv, pr.GateSend, pr.HonestReal, pr.RealHostile = 7, 6, 5, 5, 10, 6, 10, 4
 		pr.Conflict, pr.MisbFork, pr.Mutant, pr.Power = 6, 4, 2, 2
 	}, map[string]int64{"client_messages": 250, "status_compared_Active": 2500, "status_compared_Expired": 3000, "status_compared_Frozen": 900, "status_compared_frozen_and_expired": 400, "status_compared_Active_or_Expired": 4, "gate_ok_active": 70, "gate_rejected_inactive": 60, "gate_proof_consumers_rejected_inactive": 25, "gate_ok_active_update": 100, "gate_rejected_inactive_update": 12, "latest_height_checks": 5000, "recoveries": 30})
 }
 
 func TestC22(t *testing.T) {
-	runTM(t, "C22", 14, 60, 110, func(pr *Profile) {
+	runTM(t, "C22", 36, 60, 110, func(pr *Profile) {
 		pr.New, pr.Gap, pr.JumpPrune, pr.UpgradeVirt, pr.Recover = 26, 14, 9, 4, 5
 		pr.Mutant, pr.Power, pr.GateRecv, pr.GateSend, pr.GateV2, pr.Conflict, pr.MisbFork, pr.MisbTime = 2, 2, 0, 0, 0, 2, 1, 1
 	}, map[string]int64{"client_messages": 350, "metadata_triples_checked": 20000, "heights_with_0x2f_checked": 7000, "neighbour_lookups_compared": 70000, "prunes_oldest_checked": 70, "upgrades": 6, "recoveries": 30})
 }
 
 func TestC23(t *testing.T) {
-	runTM(t, "C23", 14, 60, 110, func(pr *Profile) {
+	runTM(t, "C23", 36, 60, 110, func(pr *Profile) {
 		pr.BadTime, pr.Gap, pr.New = 16, 14, 24
 		pr.Mutant, pr.Power, pr.GateRecv, pr.GateSend, pr.GateV2, pr.Conflict = 2, 2, 0, 0, 0, 2
 	}, map[string]int64{"client_messages": 400, "stored_by_update_checked": 180, "prev_neighbour_compared": 180, "next_neighbour_compared": 20, "badtime_accepted": 25, "badtime_froze": 25})
 }
 
 func TestC24(t *testing.T) {
-	runTM(t, "C24", 14, 60, 110, func(pr *Profile) {
+	runTM(t, "C24", 36, 60, 110, func(pr *Profile) {
 		pr.Mutant, pr.Power, pr.MisbFork, pr.MisbTime, pr.UpgradeVirt = 22, 18, 6, 6, 5
 		pr.Conflict, pr.BadTime, pr.GateRecv, pr.GateSend, pr.GateV2, pr.GateInit, pr.GateHandshake = 2, 2, 0, 0, 0, 1, 1
 	}, map[string]int64{"client_messages": 450, "headers_that_must_be_rejected": 200, "rejected_as_required": 200, "accepted_and_verified": 150, "must_reject_own-power": 80, "must_reject_trust-level": 10, "must_reject_trusted-vals-hash": 10, "must_reject_revision": 3, "must_reject_clock-drift": 2, "must_reject_trusting-period": 40, "must_reject_valset-hash": 6, "must_reject_no-trusted-state": 9, "misbehaviour_froze_verified": 18, "misbehaviour_that_must_not_freeze": 35})
 }
 
 func TestC25(t *testing.T) {
-	runTM(t, "C25", 14, 60, 100, func(pr *Profile) {
+	runTM(t, "C25", 36, 60, 100, func(pr *Profile) {
 		pr.Recover, pr.UpgradeVirt, pr.UpgradeReal, pr.JumpExpire, pr.Conflict, pr.MisbFork = 14, 10, 2, 6, 6, 4
 		pr.Mutant, pr.Power, pr.GateRecv, pr.GateSend, pr.GateV2, pr.BadTime = 2, 2, 0, 0, 0, 2
 	}, map[string]int64{"recover_success_checked": 45, "recover_rejected_as_required": 30, "upgrade_success_checked": 18, "upgrade_rejected_as_required": 25, "upgrade_trusting_period_scaled_checked": 4, "bystander_store_compared": 500, "real_upgrade_flows": 3})
